@@ -1,6 +1,7 @@
 """C02 — determinant and inverse: sign bookkeeping, diagonal product, zero pivots, operand left intact."""
 from .pdb import strip, walk, loc, ancestors
 from .terms import Ctx, num, show, lin_add
+from .common import return_paths, local_ties, rewrite_eqs
 from .common import (P, F, effects, callee_path, call_args, rule_index_kinds, rule_no_unsafe, rule_freeze, receiver_mode, find_argmax,
                      reachable_fns, facts_x, in_macro, is_zero_term, _resolve, loop_var_ranges)
 from .guards import facts
@@ -120,21 +121,25 @@ def run(rep, pdb, tier):
         okp = one and diag and full and after
         dets = "starts at one=%s multiplies temp[(i,i)]=%s i in 0..rows=%s after the factorisation=%s" % (one, diag, full, after)
     rep.add("diag-product", "det starts at One::one() and is multiplied by temp[(i,i)] for i over the full range 0..rows of the factorised clone", okp, prods[0].node if prods else det["body"], dets)
-    tail = det["body"].get("expr")
-    tl = strip(tail) if tail is not None else None
-    okpar, dets = tl is not None and tl.get("k") == "If" and tl.get("else") is not None and len(prods) == 1, ""
+    lucall = [n for n in walk(det["body"]) if n.get("k") == "MethodCall" and callee_path(n) == "%s::lu_decomp_in_place" % M]
+    piv = ("field", dctx.term(lucall[0]), "0") if lucall else None
+    okpar, dets, tl = len(prods) == 1 and piv is not None, "", None
     if okpar:
-        c = dctx.term(tl["cond"])
-        th, el = dctx.term(tl["then"]), dctx.term(tl["else"])
         acc = prods[0].target
-        lucall = [n for n in walk(det["body"]) if n.get("k") == "MethodCall" and callee_path(n) == "%s::lu_decomp_in_place" % M]
-        piv = ("field", dctx.term(lucall[0]), "0") if lucall else None
-        even = c[0] == "op" and c[1] == "==" and c[2] == ("op", "%", piv, num(2)) and c[3] == num(0)
-        odd = c[0] == "op" and ((c[1] == "!=" and c[2] == ("op", "%", piv, num(2)) and c[3] == num(0)) or (c[1] == "==" and c[2] == ("op", "%", piv, num(2)) and c[3] == num(1)))
-        if odd:
-            th, el, even = el, th, True
-        okpar = even and th == acc and el == ("neg", acc)
-        dets = "cond=%s then=%s else=%s" % (show(c, dctx), show(th, dctx), show(el, dctx))
+        par = ("op", "%", piv, num(2))
+        paths = return_paths(dctx)
+        seen = set()
+        dd = []
+        for fs, val, node in paths:
+            tl = tl or node
+            even = any(f[0] == "cmp" and ((f[1] == "==" and {f[2], f[3]} == {par, num(0)}) or (f[1] == "!=" and {f[2], f[3]} == {par, num(1)})) for f in fs)
+            odd = any(f[0] == "cmp" and ((f[1] == "!=" and {f[2], f[3]} == {par, num(0)}) or (f[1] == "==" and {f[2], f[3]} == {par, num(1)})) for f in fs)
+            good = (even and not odd and val == acc) or (odd and not even and val == ("neg", acc))
+            seen.add("even" if even else "odd" if odd else "?")
+            dd.append("%s -> %s%s" % ("even" if even else "odd" if odd else "no parity fact", show(val, dctx), "" if good else " (WRONG)"))
+            okpar = okpar and good
+        okpar = okpar and seen == {"even", "odd"}
+        dets = "; ".join(dd)
     rep.add("parity", "determinant returns det when the exchange count is even and -det when it is odd (pairing by value, not text order)", okpar, tl or det["body"], dets)
     # ---- inverse shape
     ictx = Ctx.for_fn(pdb, inv)
@@ -153,10 +158,15 @@ def run(rep, pdb, tier):
         starts_perm = invdef is not None and invdef[0] == ictx.term(lucall[0]) and invdef[1] == (1,)
         fw, bw = subs[0], subs[1]
 
+        tie = dict(local_ties(pdb, ictx))       # lu = self.clone(): lu.rows is self.rows (the factorisation never writes dimensions)
+
+        def N(t):
+            return rewrite_eqs(t, tie)
+
         def upd_ok(e, inner_lo_of_i, inner_hi_of_i, rev):
             rj, ri, rk = [for_range(ictx, l) for l in e.loops]
             j, i, k = rj[0], ri[0], rk[0]
-            return (rj[1:4] == (num(0), ROWS, False) and ri[1:3] == (num(0), ROWS) and ri[4] == rev and rk[1] == inner_lo_of_i(i) and rk[2] == inner_hi_of_i(i) and not rk[3]
+            return ((rj[1], N(rj[2]), rj[3]) == (num(0), ROWS, False) and (ri[1], N(ri[2])) == (num(0), ROWS) and ri[4] == rev and rk[1] == inner_lo_of_i(i) and N(rk[2]) == inner_hi_of_i(i) and not rk[3]
                     and e.target == invt and e.index == ("tup", i, j) and e.value == ("op", "*", ("idx", lut, ("tup", i, k)), ("idx", invt, ("tup", k, j)))), (i, j)
         okf, _ = upd_ok(fw, lambda i: num(0), lambda i: i, False)
         okb, (bi, bj) = upd_ok(bw, lambda i: lin_add(i, num(1)), lambda i: ROWS, True)
